@@ -196,6 +196,13 @@ def repeat_key(t, rng):
         return x
     return rebuild(t)
 
+def drop_member(t, rng):
+    """the tree with ONE entry of its outermost map removed, nothing else changed (a structure that lacks a member: its reader must
+    insist on exactly the mandatory ones)"""
+    if t[0] != "m" or not t[1]: return t
+    k = rng.randrange(len(t[1]))
+    return ("m", t[1][:k] + t[1][k + 1:], t[2], t[3])
+
 def mutate_tree(t, rng, p=0.06):
     """structure-aware mutation: integers replaced by boundary values (out-of-range indices, huge counts), members dropped or
     duplicated, containers switched to indefinite, wrong major types"""
